@@ -107,6 +107,29 @@ func e2eDdnWorker(args []string) error {
 		}
 	}
 
+	if p.Datapath == "up4" {
+		// a digest names a UE address, not a session: a report for an address that no session has yet, then a session
+		// with that address whose first report is due; and a new session on the address of a deleted one
+		fake := rng.Uint64() | 1<<62
+		w.UeBySeid[fake] = ue + 1 // the address the next session gets
+		w.Report("p1", fake, 0)
+		delete(w.UeBySeid, fake)
+		mk(true)
+
+		if n := len(ss); n > 0 {
+			w.Report("p1", ss[n-1].up, 1)
+			w.Del("p1", &e2e.SessReq{Hdr: ss[n-1].up})
+			delete(w.UeBySeid, ss[n-1].up)
+			ss = ss[:n-1]
+			ue-- // the same address again
+			mk(true)
+
+			if n := len(ss); n > 0 {
+				w.Report("p1", ss[n-1].up, 1)
+			}
+		}
+	}
+
 	for i := 0; i < 4; i++ {
 		mk(true)
 	}
@@ -140,6 +163,10 @@ func e2eDdnWorker(args []string) error {
 			delete(w.UeBySeid, ss[j].up)
 			ss = append(ss[:j], ss[j+1:]...)
 			mk(rng.Intn(3) > 0)
+
+			if n := len(ss); n > 0 && rng.Intn(2) == 0 {
+				w.Report("p1", ss[n-1].up, 1) // the first report of the new session, whatever was reported before
+			}
 		}
 
 		// gaps are either clearly inside or clearly outside the interval
